@@ -7,7 +7,7 @@ import ast
 from ..interp import cval, has_const
 from ..source import norm_text
 from .common import walk_no_nested
-from .geo import all_geos, geo_text
+from .geo import all_geos, geo_text, under
 
 TRAJ = 'gemdat.trajectory.Trajectory'
 STORAGE = {'coords', 'coords_are_displacement', 'base_positions', 'lattice', 'lattices', 'species', 'time_step', 'constant_lattice',
@@ -118,19 +118,27 @@ def check_constructors(ctx):
     for name in ('filter', 'center_of_mass', 'apply_drift_correction'):
         fi = ctx.fn(f'{TRAJ}.{name}')
         it = ctx.entry(fi.qualname)
-        cons = [e for e in it.events if e['tag'] == 'construct' and e['cls'] == TRAJ and e['where'] is not None and e['where'].qualname == fi.qualname]
+        inside = under(fi.qualname)
+        cons = [e for e in it.events if e['tag'] == 'construct' and e['cls'] == TRAJ and e['where'] is not None and inside(e)]
+        made_in = {e['where'].qualname for e in cons}
         if not cons:
             ctx.ob('R3', fi, name, None, 'constructor call not found')
             continue
-        for r_ in ast.walk(fi.node):
+        for r_ in walk_no_nested(fi.node):
             if isinstance(r_, ast.Return) and r_.value is not None:
                 v_ = it.value_of(r_.value)
-                fresh_obj = v_ is not None and v_.ty == 'obj' and v_.alloc == fi.qualname and not v_.symbolic
+                fresh_obj = v_ is not None and v_.ty == 'obj' and v_.alloc in made_in and not v_.symbolic
                 if not fresh_obj:
                     ctx.ob('R3', fi, r_, False, f'`{norm_text(r_)}` returns an existing trajectory object instead of a new one: the derived '
                                                 f'trajectory aliases its source, so extending / converting one changes the other')
         e = cons[-1]
-        kw = e['kwargs']
+        kw = dict(e['kwargs'])
+        star = kw.pop('**', None)
+        open_kw = False
+        if star is not None:
+            for k_, v_ in (star.kw or {}).items():
+                kw.setdefault(k_, v_)
+            open_kw = not star.kw or bool(star.open_kw)
         c = kw.get('coords')
         cad = kw.get('coords_are_displacement')
         disp = cad is not None and has_const(cad) and cval(cad) is True
@@ -147,7 +155,7 @@ def check_constructors(ctx):
                 probs.append((False, 'displacement vectors are stored as positions (mode flag missing)'))
         for k in ('species', 'lattice', 'metadata', 'time_step'):
             if k not in kw:
-                probs.append((False, f'`{k}` is not forwarded: the derived trajectory silently gets the default'))
+                probs.append((None if open_kw else False, f'`{k}` is not forwarded: the derived trajectory silently gets the default'))
         bad = [p for p in probs if p[0] is False]
         und = [p for p in probs if p[0] is None]
         ctx.ob('R3', fi, e['node'], False if bad else (None if und else True),
